@@ -403,6 +403,79 @@ def r17c(P, R):
     R.floor("R17-c", "schema-order iterations in the checker", n, 1)
 
 
+def r17e(P, R):
+    """a decision taken while files are merged one by one must not depend on which file comes first (the load order is the glob's
+    alphabetical order, an accident of file naming).  In a loop that dispatches on the variant of each element and accumulates per
+    variant, an early failure in the arm of variant X that reads what the arm of variant Y accumulated fires only when a Y came
+    before an X; it is order-independent only if the arm of Y has the mirror test, or a test after the loop sees both."""
+    n = 0
+    for f in sorted(P.fns.values(), key=lambda g: g.path):
+        if f.derived or "::tests" in f.path or not f.path.startswith("nitrogql_cli::"):
+            continue
+        acc = f.nodes()
+        for li, (loop, _) in enumerate(acc):
+            if loop.get("k") != "Loop" or loop.get("src") != "ForLoop":
+                continue
+            inner = subnodes(loop)
+            declared = {y["local"] for y in inner if y.get("k") == "Binding" and "local" in y}
+            for m in inner:
+                if m.get("k") != "Match" or m.get("src") != "Normal" or len(m["arms"]) < 2:
+                    continue
+                if not all(x.get("k") in ("TupleStruct", "Struct", "PatExpr", "Path") for arm in m["arms"] for x in [_strip_pat(arm["pat"])]):
+                    continue
+                writes, exits = [], []
+                for arm in m["arms"]:
+                    w = set()
+                    for y in subnodes(arm["body"]):
+                        tgt = None
+                        if y.get("k") in ("Assign", "AssignOp"):
+                            tgt = y["l"]
+                        elif y.get("k") == "MethodCall" and y["method"] in ("push", "insert", "extend", "push_back", "append", "replace", "get_or_insert", "get_or_insert_with"):
+                            tgt = y["recv"]
+                        while tgt is not None and tgt.get("k") in ("Field", "Index", "Unary", "AddrOf") and "e" in tgt:
+                            tgt = tgt["e"]
+                        if tgt is not None and tgt.get("k") == "Path" and tgt.get("local") is not None and tgt["local"] not in declared:
+                            w.add(tgt["local"])
+                    writes.append(w)
+                    ex = []
+                    for y in subnodes(arm["body"]):
+                        if y.get("k") == "If" and any(z.get("k") in ("Ret", "Break") and "desugar" not in (z.get("x") or "") for z in subnodes(y["then"])):
+                            ex.append({z["local"] for z in subnodes(y["cond"]) if z.get("k") == "Path" and z.get("local") is not None and z["local"] not in declared})
+                    exits.append(ex)
+                if not any(writes):
+                    continue
+                names = {y["local"]: y.get("name") for y in f.walk() if y.get("k") in ("Binding", "Path") and "local" in y}
+                # tests after the loop, in the same function
+                after = [{z["local"] for z in subnodes(y["cond"]) if z.get("k") == "Path" and z.get("local") is not None}
+                         for j, (y, _) in enumerate(acc) if j > li and y.get("k") == "If" and not any(z is y for z in inner)]
+                for xi, ex in enumerate(exits):
+                    for reads in ex:
+                        for yi, w in enumerate(writes):
+                            if yi == xi:
+                                continue
+                            cross = (reads & w) - writes[xi]
+                            if not cross:
+                                continue
+                            n += 1
+                            mirrored = any((r & writes[xi]) - w for r in exits[yi])
+                            post = any((r & w) and (r & writes[xi]) for r in after)
+                            key = "symmetric-decision:%s:%s" % (short(f.path), "/".join(sorted(names.get(l) or "?" for l in cross)))
+                            if mirrored or post:
+                                R.holds("R17-c", key, "the cross-variant test has its mirror (%s)" % ("in the other arm" if mirrored else "after the loop"), loc=f.loc())
+                            else:
+                                R.violated("R17-c", key, "%s fails early in the arm of one variant when `%s` (filled by the arm of another variant) is non-empty, and neither the other "
+                                           "arm nor a test after the loop mirrors it: the verdict depends on which file is loaded first, i.e. on how the schema files "
+                                           "happen to be named" % (f.path, "/".join(sorted(names.get(l) or "?" for l in cross))), loc=f.loc())
+    if not n:
+        R.holds("R17-c", "symmetric-decision:none", "no merge loop of the CLI fails in one variant's arm on what another variant's arm accumulated")
+
+
+def _strip_pat(p):
+    while p.get("k") in ("Ref", "Deref", "Box") and "p" in p:
+        p = p["p"]
+    return p
+
+
 def _untruncated_opens(prog):
     """OpenOptions chains that open for writing without `truncate(true)` / `create_new(true)` / `append(true)`"""
     out = []
@@ -488,7 +561,7 @@ def r17pc(P, R):
             "self-check: the time/RNG detector does not see SystemTime::now in the control crate")
 
 
-RULES = [("R17-a", r17a), ("R17-b", r17b), ("R17-c", r17c), ("R17-d", r17d), ("R17-pc", r17pc)]
+RULES = [("R17-a", r17a), ("R17-b", r17b), ("R17-c", r17c), ("R17-c", r17e), ("R17-d", r17d), ("R17-pc", r17pc)]
 EXPLANATION = (
     "Hash-seed independence, for all inputs and all seeds: every expression in the workspace that exposes the iteration order "
     "of a std HashMap/HashSet (iter/keys/values/drain/retain/into_iter, for-loops, Debug formatting; resolved by receiver type, "
